@@ -73,8 +73,8 @@ func TestVerifC18Startup(t *testing.T) {
 	rep := report.New("C18 start-up failure and router close")
 	defer rep.Write()
 	healthy := []string{"udp", "tcp", "gnet", "http", "fasthttp", "tls", "https", "quic"}
-	failing := []string{"port-in-use", "missing-cert", "unknown-protocol", "bad-listen-address"}
-	rep.Rule = fmt.Sprintf("real run() on loopback: 3-server configurations with one failing entry %v at index 0,1,2 and the other two entries drawn (rotating) from the healthy kinds %v; plus every healthy kind alone, closed twice; "+
+	failing := []string{"port-in-use", "missing-cert", "missing-cert:https", "missing-cert:quic", "unknown-protocol", "bad-listen-address"}
+	rep.Rule = fmt.Sprintf("real run() on loopback: 3-server configurations with one failing entry %v (the entries without a loadable certificate must not leave their own address bound either) at index 0,1,2 and the other two entries drawn (rotating) from the healthy kinds %v; plus every healthy kind alone, closed twice; "+
 		"oracle: run() returns an error without panicking, no listening socket of the healthy entries is left in the process afterwards (own-fd x /proc/net LISTEN/UDP check); a healthy router's close() is idempotent and frees its ports, also with a request in flight against a silent upstream (udp, tcp, gnet, http, fasthttp), where it returns without waiting for the request's deadline (fastest of 3 attempts under 3 s); distinct = distinct configurations", failing, healthy)
 	if sh, _ := report.Shard(); sh != 0 {
 		rep.Eval("idle-shard")
@@ -115,10 +115,17 @@ func TestVerifC18Startup(t *testing.T) {
 					case "port-in-use":
 						blocker, _ = net.Listen("tcp", "127.0.0.1:0")
 						cfg.Servers = append(cfg.Servers, mkServer("tcp", blocker.Addr().(*net.TCPAddr).Port))
-					case "missing-cert":
-						sc := ServerConfig{Protocol: "tls", Listen: fmt.Sprintf("127.0.0.1:%d", c18FreePort())}
+					case "missing-cert", "missing-cert:https", "missing-cert:quic":
+						proto := "tls"
+						if i := strings.IndexByte(fk, ':'); i > 0 {
+							proto = fk[i+1:]
+						}
+						port := c18FreePort()
+						sc := ServerConfig{Protocol: proto, Listen: fmt.Sprintf("127.0.0.1:%d", port)}
 						sc.Tls.Cert, sc.Tls.Key = filepath.Join(dir, "nope.pem"), filepath.Join(dir, "nope.key")
 						cfg.Servers = append(cfg.Servers, sc)
+						// the entry that fails must not leave its own address bound either
+						bounds = append(bounds, bound{proto, port})
 					case "unknown-protocol":
 						cfg.Servers = append(cfg.Servers, ServerConfig{Protocol: "sctp", Listen: "127.0.0.1:0"})
 					case "bad-listen-address":
